@@ -298,6 +298,14 @@ def e4(case):
         pv = C.tens(L.vector(mg.config, vals))
         smp = np.asarray(tl.tolist(mg.make_pdf(pv).sample((n,))), dtype=float)
         ncmp += 2
+        # the constraint terms are independent: pairwise correlations of the standardised auxiliary columns vanish
+        auxc = smp[:, mg.config.nmaindata:]
+        z = (auxc - auxc.mean(axis=0)) / auxc.std(axis=0)
+        corr = (z.T @ z) / n
+        ncmp += 1
+        offd = corr - np.diag(np.diag(corr))
+        if np.any(np.abs(offd) > 6 / np.sqrt(n)):
+            issues.append(C.issue("C14:E4:aux_correlation", f"auxiliary pseudo-data of independent constraint terms are correlated (max |r| = {float(np.max(np.abs(offd))):.3f})", backend=be))
         off = mg.config.nmaindata
         for name in mg.config.auxdata_order:
             k_ = mg.config.param_set(name).n_parameters
